@@ -268,13 +268,17 @@ func buildMasks(k int) []uint64 {
 	return masks
 }
 
-func TestExhaustiveKinds(t *testing.T) {
+func TestExhaustiveKinds(t *testing.T) { enumerateKinds(t, "") }
+
+// enumerateKinds runs the synthetic-node enumeration; with only != "" just the case with that
+// description is evaluated (replay of a recorded case, on any shard).
+func enumerateKinds(t *testing.T, only string) {
 	if err := astx.SelfTest(); err != nil {
 		t.Fatal(err)
 	}
 	total := 0
 	for ki, s := range astx.Kinds() {
-		if !harness.MyShare(ki) {
+		if only == "" && !harness.MyShare(ki) {
 			continue
 		}
 		slots := synth.SlotFields(s, astx.FToken, astx.FTokenList, astx.FChild, astx.FChildList)
@@ -322,6 +326,9 @@ func TestExhaustiveKinds(t *testing.T) {
 					if block {
 						d += "+Stmt={block}"
 					}
+					if only != "" && d != only {
+						continue
+					}
 					harness.NonTrivial([]byte(d), d)
 					if m := checkSynthetic(n); m != "" {
 						harness.Failf(t, "exhaustive-kinds", []byte(d), map[string]string{"node": d}, "%s: %s", d, m)
@@ -339,6 +346,9 @@ func TestExhaustiveKinds(t *testing.T) {
 				}
 			}
 		}
+	}
+	if only != "" {
+		return
 	}
 	harness.ClassN("synthetic-nodes", total)
 	harness.Exhaustive(fmt.Sprintf("all %d node kinds: every subset of token/child/list slots for kinds with <= 10 slots (larger kinds: all, none, each single slot present/absent, every pair present/absent) x list lengths {0,1,3} x separator counts {n-1, n, n-2}", len(astx.Kinds())))
@@ -425,7 +435,7 @@ func TestSubtreeReplacement(t *testing.T) {
 			for i < len(out) && i < len(want) && out[i] == want[i] {
 				i++
 			}
-			harness.Fail(rt, "subtree-replacement", src, map[string]string{"version": v.String()}, "[%s] replacing %s in %s.%s changed more than that subtree's text: first difference at output offset %d (subtree portion is %d..%d + %d bytes)\nsource: %q\noutput: %q\nreplacement: %q", v, astx.KindName(s.node), astx.KindName(s.parent), s.slot, i, midStart, midStart, len(sub), src, out, sub)
+			harness.Fail(rt, "subtree-replacement", src, map[string]string{"version": v.String(), "site": siteKey(s.parent, s.slot, s.idx), "replacement": string(sub)}, "[%s] replacing %s in %s.%s changed more than that subtree's text: first difference at output offset %d (subtree portion is %d..%d + %d bytes)\nsource: %q\noutput: %q\nreplacement: %q", v, astx.KindName(s.node), astx.KindName(s.parent), s.slot, i, midStart, midStart, len(sub), src, out, sub)
 		}
 		if astx.KindName(s.node) != astx.KindName(e) && len(sub) != midEnd-midStart {
 			harness.NonTrivial(append(append([]byte{}, src...), sub...), fmt.Sprintf("[%s] %s in %s.%s -> %q within %q", v, astx.KindName(s.node), astx.KindName(s.parent), s.slot, sub, trunc(src, 200)))
@@ -457,9 +467,75 @@ func setChild(parent ast.Vertex, slot string, idx int, c ast.Vertex) {
 	}
 }
 
+// siteKey identifies a replacement site by the source span of its parent, the slot and the index.
+func siteKey(parent ast.Vertex, slot string, idx int) string {
+	p := parent.GetPosition()
+	if p == nil {
+		return fmt.Sprintf("%s/?/%s/%d", astx.KindName(parent), slot, idx)
+	}
+	return fmt.Sprintf("%s/%d-%d/%s/%d", astx.KindName(parent), p.StartPos, p.EndPos, slot, idx)
+}
+
+// TestReplay re-executes a recorded case: a synthetic node (meta.node) is rebuilt by the enumeration;
+// a subtree replacement is redone from the recorded source, site and replacement text (the
+// replacement expression is re-created by parsing its text, positions removed).
 func TestReplay(t *testing.T) {
-	if harness.ReplayPath() == "" {
+	path := harness.ReplayPath()
+	if path == "" {
 		t.Skip("no VERIF_REPLAY")
 	}
-	t.Skip("synthetic node cases are re-enumerated by TestExhaustiveKinds; replacement cases replay through the rapid seed in the replay file")
+	vi, src, err := harness.LoadReplay(path)
+	if err != nil {
+		t.Fatal(err)
+	}
+	if vi.Meta["node"] != "" {
+		harness.Eval()
+		enumerateKinds(t, vi.Meta["node"])
+		return
+	}
+	if vi.Meta["site"] == "" {
+		t.Skip("nothing to replay in this file")
+	}
+	var v px.Ver
+	fmt.Sscanf(vi.Meta["version"], "%d.%d", &v.Major, &v.Minor)
+	r := px.Parse(src, v, true)
+	rp := px.Parse([]byte("<?php "+vi.Meta["replacement"]+";"), v, true)
+	if r.Root == nil || len(r.Errs) > 0 || rp.Root == nil || len(rp.Errs) > 0 {
+		t.Skip("the recorded source or replacement no longer parses")
+	}
+	e := rp.Root.(*ast.Root).Stmts[0].(*ast.StmtExpression).Expr
+	for _, tk := range astx.FlatTokens(e) {
+		tk.Position = nil
+	}
+	if ft := astx.Tokens(e); len(ft) > 0 {
+		ft[0].FreeFloating = nil
+	}
+	var parent, node ast.Vertex
+	var slot string
+	idx := 0
+	astx.Walk(r.Root, func(n ast.Vertex, _ string) bool {
+		for _, ch := range astx.Children(n) {
+			if siteKey(n, ch.Slot, ch.Index) == vi.Meta["site"] {
+				parent, node, slot, idx = n, ch.Child, ch.Slot, ch.Index
+			}
+		}
+		return true
+	})
+	if parent == nil {
+		t.Skip("the recorded site is not in the tree any more")
+	}
+	toks := astx.FlatTokens(node)
+	midStart, midEnd := toks[0].Position.StartPos, toks[len(toks)-1].Position.EndPos
+	sub := px.PrintPHP(e)
+	setChild(parent, slot, idx, e)
+	out := px.Print(r.Root)
+	harness.Eval()
+	for _, a := range []string{"", " "} {
+		for _, b := range []string{"", " "} {
+			if bytes.Equal(out, []byte(string(src[:midStart])+a+string(sub)+b+string(src[midEnd:]))) {
+				return
+			}
+		}
+	}
+	harness.Failf(t, "subtree-replacement", src, vi.Meta, "[%s] replacing %s at %s changed more than that subtree's text\noutput: %q", v, astx.KindName(node), vi.Meta["site"], out)
 }
